@@ -173,7 +173,7 @@ def coupler(rng):
     return np.array([[complex(float(z[0]), float(z[1])) for z in row] for row in S], complex)
 
 
-def mesh_solver(rng, N, layers):
+def mesh_solver(rng, N, layers, record=None):
     """rectangular mesh on N modes: layer l couples modes (k, k+1) for k = l%2, l%2+2, ..."""
     import random
     with lk.Solver() as S:
@@ -181,8 +181,10 @@ def mesh_solver(rng, N, layers):
         ncoup = 0
         for l in range(layers):
             for k in range(l % 2, N - 1, 2):
-                m = lk.Model(pin_dic={Pin("a0"): 0, Pin("a1"): 1, Pin("b0"): 2, Pin("b1"): 3},
-                             Smatrix=coupler(rng))
+                C = coupler(rng)
+                if record is not None:
+                    record.append((k, C))
+                m = lk.Model(pin_dic={Pin("a0"): 0, Pin("a1"): 1, Pin("b0"): 2, Pin("b1"): 3}, Smatrix=C)
                 st = m.put()
                 ncoup += 1
                 for off, (pa, pb) in enumerate((("a0", "b0"), ("a1", "b1"))):
@@ -251,6 +253,48 @@ class OracleStream(Stream):
         return d["kind"] + str(d.get("n", d.get("layers")))
 
 
+class MeshReference(Stream):
+    """coupler meshes against the reference solution: the product of the layers' transfer matrices (numpy, harness
+    oracle); every in -> out coefficient is compared (a mesh that is merely unitary but wired wrongly is caught)"""
+    name = "mesh_reference"
+    imports = "Field Matrix Base Kernel Network Solve Corr"
+    case_type = "val_case"
+    verdict_fn = "val_verdict"
+    shard_size = 2
+
+    def generate(self, rng, tier):
+        sizes = [(5, 6), (6, 12), (8, 20)] if tier == "quick" else [(5, 8), (8, 40), (10, 60), (12, 30)]
+        return [{"N": n, "layers": l, "seed": rng.randint(0, 10 ** 9)} for n, l in sizes]
+
+    def run(self, d):
+        import random
+        rng = random.Random(d["seed"])
+        N = d["N"]
+        rec = []
+        try:
+            def go():
+                S, nc = mesh_solver(rng, N, d["layers"], rec)
+                return S.solve()
+            mod = with_timeout(400, go)
+            T = np.eye(N, dtype=complex)
+            for k, C in rec:
+                B = C[2:4, 0:2]                       # amplitudes at (b0, b1) per unit input at (a0, a1)
+                T[k:k + 2, :] = B @ T[k:k + 2, :]
+            expected = [T[i, j] for i in range(N) for j in range(N)]
+            vals = [mod.get_A(f"out{i}", f"in{j}") for i in range(N) for j in range(N)]
+            obs = "Obs " + cvec(vals, cf)
+        except Exception:
+            expected, obs = [], "Raised"
+        return "{| vc_expected := %s; vc_obs := %s |}" % (cvec(expected, cf), obs)
+
+    def classify(self, d):
+        return "mesh%dx%d" % (d["N"], d["layers"])
+
+    def py_repro(self, d):
+        return ("import sys; sys.path.insert(0,'/verif/harness'); import c20\n"
+                f"d={d!r}\nprint(c20.MeshReference().run(d)[:400])\n")
+
+
 class ChainModelStream(Stream):
     """lossy reflective chain of 30 cells against the exact model"""
     name = "chain_model"
@@ -291,7 +335,7 @@ TRUSTED = [
 ]
 
 if __name__ == "__main__":
-    main("C20", [ClosedFormStream(), LossyStream(), OracleStream(), ChainModelStream()],
+    main("C20", [ClosedFormStream(), LossyStream(), OracleStream(), MeshReference(), ChainModelStream()],
          level_text="props/C20.v proves the exact-arithmetic half for ALL sizes: n-1 merges, cascade closed form for any "
                     "length and schedule, nesting of any depth equals the flat circuit, passivity/isometry of the result. "
                     "The runtime half (round-off growth through thousands of LAPACK inversions, interpreter recursion and "
